@@ -315,6 +315,23 @@ def r_apply_on_append(ctx):
                  and add_heads[0].id not in hcfg.reachable_from(n.id, follow_exc=False)]
         if same and after:
             ctx.ok(inst, h.loc(after[0].ast), 'scan loop over `%s` follows the store loop' % unparse(add_loops[0].iter))
+            # ... on every node: with dynamic membership enabled no path from the store loop to the end of the handler avoids the scan
+            inst2 = 'with dynamicMembershipChange on, every path after storing entries passes the membership scan'
+            ctx.tick()
+            dyn = hex_.tb.literal(U.parse_expr('self.%s.dynamicMembershipChange' % R.conf), True)
+            done = [d for d, l in add_heads[0].succ if l == 'done']
+            if dyn is not None and done:
+                r3 = hex_.run(start=done[0], init=frozenset([dyn]), avoid=[n.id for n in after], follow_exc=False)
+                if r3.reached(hcfg.exit.id):
+                    fs3 = r3.facts_at(hcfg.exit.id)[0]
+                    ctx.violation('%s:membership-scan-bypassed' % h.qualname, h.loc(after[0].ast),
+                                  'with dynamicMembershipChange enabled some nodes store membership entries without applying them (path avoiding the scan: %s): such a node '
+                                  'keeps the old member set until the entry is committed -- or forever, if it never learns the new leader' % r3.path_str(hcfg.exit.id, fs3),
+                                  instance=inst2)
+                else:
+                    ctx.ok(inst2, h.loc(after[0].ast), 'handler exit unreachable from the end of the store loop without the scan loop')
+            else:
+                ctx.unproven(inst2, h.loc(after[0].ast), 'configuration flag not expressible as a literal')
         else:
             ctx.violation('%s:membership-scan-mismatch' % h.qualname, h.loc(scan_loops[0].ast),
                           'the membership scan runs over `%s` but the stored entries are `%s`' % (unparse(scan_loops[0].ast.iter), unparse(add_loops[0].iter)), instance=inst)
